@@ -1,2 +1,64 @@
--- driver stub (not built yet)
-def main : IO Unit := pure ()
+import QmcModel.Proto
+import QmcModel.Basic
+import QmcModel.Rand
+import QmcModel.Diagonal
+import QmcModel.HeatBath
+open Qmc Qmc.Proto
+
+/-
+C02 driver. Kinds (plus all of `Proto.diagStep`: msweep, hsweep, bw, mprob, hprob):
+  gentable <ops>                              ops `+`-separated: `A!vars:const:mat` | `H0` | `H1` | `D`
+                                              → one token per op: the stored table (`none` or max weights)
+  isingham <nvars> <edges> <gamma> <h>        edges `a:b:J,…` → table Hamiltonian `H<n>!…` + `make_bond_weights` of it
+  isingtable <nvars> <edges> <gamma> <h> <ops>  ops `+`-separated: `E0` | `E1` | `D` → one table token per op
+-/
+
+def parseEdges (s : String) : List (Nat × Nat × Rat) :=
+  (parseList id s).filterMap fun tok =>
+    match tok.splitOn ":" with
+    | [a, b, j] => some (parseNat a, parseNat b, parseRat j)
+    | _ => none
+
+def parseGenOp (tok : String) : Option (GenOp TBond) :=
+  if tok == "H0" then some (.setDoHeatbath false)
+  else if tok == "H1" then some (.setDoHeatbath true)
+  else if tok == "D" then some .diagonalUpdate
+  else match tok.splitOn "!" with
+    | ["A", rest] =>
+      match rest.splitOn ":" with
+      | [vs, c, m] => some (.addInteraction { vars := parseNats vs, const := (c == "1"), mat := parseRats m })
+      | _ => none
+    | _ => none
+
+def parseIsingOp (tok : String) : Option IsingOp :=
+  if tok == "E0" then some (.setEnableHeatbath false)
+  else if tok == "E1" then some (.setEnableHeatbath true)
+  else if tok == "D" then some .diagonalStep
+  else none
+
+def mkGen (bs : List TBond) : BW := makeBondWeights (tableHam bs)
+
+def step (toks : List String) : String :=
+  match diagStep toks with
+  | some r => r
+  | none =>
+    match toks with
+    | ["gentable", ops] =>
+      let os := (ops.splitOn "+").filterMap parseGenOp
+      let (_, outs) := os.foldl (fun (acc : GenS TBond × List String) op =>
+        let s' := acc.1.step mkGen op
+        (s', acc.2 ++ [showTable s'.table])) (GenS.init TBond, [])
+      String.intercalate " " outs
+    | ["isingham", nvars, edges, gamma, h] =>
+      let bs := isingBonds (parseEdges edges) (parseRat gamma) (parseRat h) (parseNat nvars)
+      s!"{showTableHam bs} {showRats (mkGen bs)}"
+    | ["isingtable", nvars, edges, gamma, h, ops] =>
+      let bs := isingBonds (parseEdges edges) (parseRat gamma) (parseRat h) (parseNat nvars)
+      let os := (ops.splitOn "+").filterMap parseIsingOp
+      let (_, outs) := os.foldl (fun (acc : IsingS (List TBond) × List String) op =>
+        let s' := acc.1.step mkGen op
+        (s', acc.2 ++ [showTable s'.table])) (({ ham := bs, table := none } : IsingS (List TBond)), [])
+      String.intercalate " " outs
+    | _ => "bad-op"
+
+def main : IO Unit := run step
